@@ -62,6 +62,12 @@ type FuncSpec struct {
 	Discipline       bool
 	DisciplineProps  []string
 	Line             int
+	Retains          []RetainSpec // parameters whose referent the function keeps after it returns
+}
+
+type RetainSpec struct {
+	Param string
+	Props []string
 }
 
 type LockSpec struct {
@@ -139,7 +145,7 @@ type SpecFile struct {
 var itemKeywords = map[string]bool{"ghost": true, "datatype": true, "pure": true, "lock": true, "iface": true, "func": true, "atomic": true, "lemma": true, "axiom": true, "lockorder": true, "lockwaits": true}
 var subKeywords = map[string]bool{"protects": true, "inv": true, "assigns": true, "held": true, "ensures": true, "ensures-internal": true, "requires": true, "safety": true,
 	"monitor": true, "let": true, "loop": true, "at": true, "arith": true, "conv": true, "panics": true, "bytes": true, "inline": true, "modular": true,
-	"discipline": true, "recv": true, "assume": true, "trusted": true, "strict": true, "forall": false, "hyp": true, "concl": true, "vars": true}
+	"discipline": true, "retains": true, "recv": true, "assume": true, "trusted": true, "strict": true, "forall": false, "hyp": true, "concl": true, "vars": true}
 
 func ParseSpecFile(path string) (*SpecFile, error) {
 	data, err := os.ReadFile(path)
@@ -538,6 +544,12 @@ func ParseSpecFile(path string) (*SpecFile, error) {
 		case "trusted":
 			curFunc.Trusted = true
 			sf.Keywords["trusted"]++
+		case "retains":
+			if curFunc == nil {
+				return nil, fail("retains outside func")
+			}
+			name, props := splitLabelProps(rest)
+			curFunc.Retains = append(curFunc.Retains, RetainSpec{Param: strings.TrimSpace(name), Props: props})
 		case "discipline":
 			curFunc.Discipline = true
 			_, curFunc.DisciplineProps = splitLabelProps(rest)
